@@ -3,6 +3,8 @@
 (* real integer lengths:                                                      *)
 (*   [k |-> "ascii" | "high" | "nul", n]   n filler bytes (no '<' among them)  *)
 (*   [k |-> "near", m]                      an incomplete marker ("</hea")     *)
+(*   [k |-> "ctl", m]                       a marker whose '<' and '/' are the  *)
+(*                                          control bytes 0x1C, 0x0F: no marker *)
 (*   [k |-> "marker", m, cs]                one of the four head markers, in   *)
 (*                                          lower / upper / mixed letter case  *)
 (* The inspected prefix is the first 16 KiB of the body after its Latin-1     *)
@@ -15,7 +17,7 @@ Window  == 16384
 Markers == {"</head", "<link", "<style", "<script"}
 MLen(m) == CASE m = "</head" -> 6 [] m = "<link" -> 5 [] m = "<style" -> 6 [] m = "<script" -> 7
 
-SegLen(s)  == CASE s.k = "marker" -> MLen(s.m) [] s.k = "near" -> MLen(s.m) - 1 [] OTHER -> s.n
+SegLen(s)  == CASE s.k = "marker" -> MLen(s.m) [] s.k = "near" -> MLen(s.m) - 1 [] s.k = "ctl" -> MLen(s.m) [] OTHER -> s.n
 \* length after transcoding: a high byte becomes two bytes
 SegTLen(s) == IF s.k = "high" THEN 2 * s.n ELSE SegLen(s)
 RECURSIVE Sum(_, _, _)
